@@ -26,6 +26,7 @@ type GenOpt struct {
 	Shape                string
 	NoAfter              bool
 	BindKinds            bool // also bind structs with func fields and StatePrefix bindings
+	SuffixPct            int  // probability (%) that a schema names some states FooEnd / FooState (their negotiation handlers then end with a final suffix)
 	DanglingPct          int  // probability (%) that a schema gets references to undefined states in Add / Remove / After (Schema.Parse drops them)
 }
 
@@ -42,6 +43,14 @@ func genSchema(r *Rng, o GenOpt) []HState {
 	}
 	if o.Health && n >= 2 && r.Chance(15) {
 		sts[r.Intn(n)].Name = am.StateHeartbeat
+	}
+	if o.SuffixPct > 0 && r.Chance(o.SuffixPct) {
+		for k := 0; k < r.Range(1, 2); k++ {
+			i := r.Intn(n)
+			if strings.HasPrefix(sts[i].Name, "S") && len(sts[i].Name) == 2 {
+				sts[i].Name += []string{am.SuffixEnd, am.SuffixState}[r.Intn(2)]
+			}
+		}
 	}
 	sts[n] = HState{Name: am.StateException, Multi: true}
 	rel := o.RelPct
